@@ -96,6 +96,9 @@ func (p *Program) fragment(r *vlib.Rand, pt *Pattern, bad bool, uniq int) string
 func (p *Program) PatternTexts() []string {
 	var out []string
 	for _, pt := range p.patterns {
+		if pt.InSubst {
+			continue // its groups are not capture symbols: nothing to type
+		}
 		out = append(out, pt.Text)
 	}
 	return out
